@@ -14,8 +14,8 @@ from props import c09
 
 ID = "C10"
 MODEL_TARGETS = ["C10/Cases.vo"]
-PROOF_TARGETS = ["C10/Proofs.vo", "C10/Refuted.vo"]
-OBLIGATION_FILES = ["C10/Refuted.v"]
+PROOF_TARGETS = ["C10/Proofs.vo", "C10/Regress.vo"]
+OBLIGATION_FILES = ["C10/Regress.v"]
 PROPS_FILE = "C10/Props.v"
 SHARD = 80
 PER_CASE_TIMEOUT = 120
